@@ -1499,6 +1499,10 @@ class Tie:
                                     if not self._read_ok(d, want):
                                         raise Fail("valid archive: %s %d %d returns %s instead of the content slice" % (rd[0], rd[1], rd[2], d.get("ret")))
                                     continue
+                                if d["ret"] in ("E22", "E10", "E14", "E16", "E30", "E32") and d.get("cur") != "4294967295":
+                                    # these codes only come from ZSTD_decompressStream: model state decoder_failed (fix b978b70)
+                                    raise Fail("%s %d %d returned the decoder's error %s but the reader still claims a position (curFrame=%s): the next "
+                                               "call would continue a decoder in an error state" % (rd[0], rd[1], rd[2], d["ret"], d.get("cur")))
                                 if d["ret"].startswith("E") or self._read_ok(d, want):
                                     continue
                                 covers_end = dfr is not None and off <= ds_[dfr] + max(log[dfr][1] - 1, 0) and off + n >= ds_[dfr + 1] and off < ds_[dfr + 1]
